@@ -93,11 +93,12 @@ static void reference(const Fn *f, const unsigned long *a, int M, int d, int dma
 
 static char sigs[64][200], sigcase[64][200]; static long sigcnt[64]; static int nsig; static long n_cases, n_viol, zone_cnt[4];
 static void report(const Fn *f, const char *what, const char *rel, const char *cs) {
-    char sig[200]; snprintf(sig, sizeof sig, "C07|%s|%s|%s", f->name, what, rel); n_viol++;
+    char sig[200]; snprintf(sig, sizeof sig, "%s|%s|%s|%s", getenv("C07_PROP") ? getenv("C07_PROP") : "C07", f->name, what, rel); n_viol++;
     for (int i = 0; i < nsig; i++) if (!strcmp(sigs[i], sig)) { sigcnt[i]++; return; }
     if (nsig < 64) { strcpy(sigs[nsig], sig); strncpy(sigcase[nsig], cs, 199); sigcnt[nsig] = 1; nsig++; }
 }
 static int verbose;
+static int bosmode;     /* 0: object sizes unknown; 1: dest size known = dmax, src size known = the rest of the arena (an enclosing larger object) */
 
 static void one(const Fn *f, int M, unsigned bits, int d, int dmax, int s, int slen) {
     int w = f->w; unsigned long a[24]; Ref r;
@@ -107,18 +108,20 @@ static void one(const Fn *f, int M, unsigned bits, int d, int dmax, int s, int s
     unsigned char *arena = page + PG + 2 * PG - M * w;      /* flush right against the guard */
     unsigned char *pre = arena - 64; memset(pre, 0xEE, 64);
     for (int i = 0; i < M; i++) es(arena, w, i, a[i]);
-    char cs[200]; snprintf(cs, sizeof cs, "%s %d %u %d %d %d %d", f->name, M, bits, d, dmax, s, slen);
+    char cs[200]; snprintf(cs, sizeof cs, "%s %d %u %d %d %d %d %d", f->name, M, bits, d, dmax, s, slen, bosmode);
     long rc = 0; int faulted = 0; int errv = 0x5A5A5A5A; h_n = 0;
     long D = (long)(arena + d * w), S = (long)(arena + s * w), N = (long)dmax * w / f->dunit, LEN = slen;
+    long BD = bosmode ? (long)dmax * w : BOSU, BS = bosmode ? (long)(M - s) * w : BOSU;
+    if (bosmode && (long)slen * w > BS) return;       /* a count above the known source size may be rejected for that reason alone */
     n_cases++;
     if (sigsetjmp(jb, 1) == 0) {
         armed = 1;
         switch (f->fam) {
-        case F_CPY: case F_CAT: rc = ((ufn)f->addr)(D, N, S, BOSU, 0, 0, 0, 0); break;
-        case F_NCPY: case F_NCAT: case F_MEM: case F_MOVE: rc = ((ufn)f->addr)(D, N, S, LEN, BOSU, BOSU, 0, 0); break;
-        case F_STP: rc = ((ufn)f->addr)(D, N, S, (long)&errv, BOSU, BOSU, 0, 0); rc = errv; break;
-        case F_STPN: rc = ((ufn)f->addr)(D, N, S, LEN, (long)&errv, BOSU, BOSU, 0); rc = errv; break;
-        case F_FLD: case F_FLDIN: case F_FLDOUT: rc = ((ufn)f->addr)(D, N, S, LEN, BOSU, 0, 0, 0); break;
+        case F_CPY: case F_CAT: rc = ((ufn)f->addr)(D, N, S, BD, 0, 0, 0, 0); break;
+        case F_NCPY: case F_NCAT: case F_MEM: case F_MOVE: rc = ((ufn)f->addr)(D, N, S, LEN, BD, BS, 0, 0); break;
+        case F_STP: rc = ((ufn)f->addr)(D, N, S, (long)&errv, BD, BS, 0, 0); rc = errv; break;
+        case F_STPN: rc = ((ufn)f->addr)(D, N, S, LEN, (long)&errv, BD, BS, 0); rc = errv; break;
+        case F_FLD: case F_FLDIN: case F_FLDOUT: rc = ((ufn)f->addr)(D, N, S, LEN, BD, 0, 0, 0); break;
         default: break;
         }
         armed = 0;
@@ -131,7 +134,8 @@ static void one(const Fn *f, int M, unsigned bits, int d, int dmax, int s, int s
     int zone = (d == s) ? 2 : !destR ? 0 : WR ? 1 : 2;      /* 0 = disjoint, 1 = must report, 2 = either */
     if (r.skip == 2) zone = 3;
     zone_cnt[zone]++;
-    const char *zn = zone == 0 ? "disjoint" : zone == 1 ? "written-intersects-read" : zone == 2 ? (d == s ? "identical-pointers" : "dest-object-touches-source") : "dest-unterminated";
+    const char *zn0 = zone == 0 ? "disjoint" : zone == 1 ? "written-intersects-read" : zone == 2 ? (d == s ? "identical-pointers" : "dest-object-touches-source") : "dest-unterminated";
+    char znb[80]; snprintf(znb, sizeof znb, "%s%s", zn0, bosmode ? ",object-sizes-known" : ""); const char *zn = znb;
     if (verbose) { printf("rc=%ld handler=%d(code %d) fault=%d zone=%s ref_ok=%d ref_code=%d R=[%d,%d) W=[%d,%d)\narena after :", rc, h_n, h_code, faulted, zn, r.ok, r.code, r.rlo, r.rhi, r.wlo, r.whi); for (int i = 0; i < M; i++) printf(" %02lx", eg(arena, w, i) & 0xff); printf("\narena before:"); for (int i = 0; i < M; i++) printf(" %02lx", a[i] & 0xff); printf("\nreference   :"); for (int i = 0; i < M; i++) printf(" %02lx", r.post[i] & 0xff); printf("\n"); }
     if (faulted) { report(f, fault_w ? "write-past-arena" : "read-past-arena", zn, cs); return; }
     for (int i = 0; i < 64; i++) if (pre[i] != 0xEE) { report(f, "write-before-arena", zn, cs); return; }
@@ -165,6 +169,30 @@ static void one(const Fn *f, int M, unsigned bits, int d, int dmax, int s, int s
     }
 }
 
+
+/* long overlapping moves: every shift of src against dest in [-SH, +SH] bytes, every length up to LM bytes, every start alignment:
+ * reaches the word loops, their unrolled blocks and the byte tails of the move primitives, which the small arena cannot */
+static unsigned char *mv_area;
+static void long_move(const Fn *f, int align, int shift_el, int len_el) {
+    int w = f->w; long shift = (long)shift_el * w, len = (long)len_el * w;
+    unsigned char *base = mv_area + 1024 + align;                /* dest */
+    unsigned char *src = base + shift;
+    unsigned char img[4096], exp[4096];
+    for (int i = 0; i < 4096; i++) mv_area[i] = img[i] = (unsigned char)(i * 7 + 3);
+    memcpy(exp, img, 4096); { unsigned char tmp[1024]; memcpy(tmp, img + (src - mv_area), len); memcpy(exp + (base - mv_area), tmp, len); }
+    char cs[200]; snprintf(cs, sizeof cs, "%s move %d %d %d", f->name, align, shift_el, len_el);
+    long rc = 0; int faulted = 0; h_n = 0; n_cases++;
+    long N = len_el ? (f->dunit == 1 ? len : len_el) : 1;
+    if (sigsetjmp(jb, 1) == 0) { armed = 1; rc = ((ufn)f->addr)((long)base, N, (long)src, (long)len_el, BOSU, BOSU, 0, 0); armed = 0; } else faulted = 1;
+    rc = (int)rc;
+    char rel[80]; snprintf(rel, sizeof rel, "long-move,%s,%s", shift == 0 ? "same-place" : shift > 0 ? (shift < len ? "src-above-dest-overlapping" : "src-above-dest-disjoint") : (-shift < len ? "src-below-dest-overlapping" : "src-below-dest-disjoint"), len >= 128 ? "len>=128" : len >= 16 ? "len>=16" : "short");
+    if (verbose) printf("rc=%ld handler=%d fault=%d\n", rc, h_n, faulted);
+    if (faulted) { report(f, "fault", rel, cs); return; }
+    if (len_el == 0) return;                                    /* zero-length request: not judged */
+    if (rc != 0) { report(f, "memmove-rejected", rel, cs); return; }
+    if (memcmp(mv_area, exp, 4096)) { if (verbose) for (int i = 0; i < 4096; i++) if (mv_area[i] != exp[i]) { printf("first difference at dest%+ld: %02x instead of %02x\n", (long)(mv_area + i - base), mv_area[i], exp[i]); break; } report(f, "memmove-differs-from-copy-through-temporary", rel, cs); }
+}
+
 int main(int argc, char **argv) {
     setvbuf(stdout, NULL, _IOLBF, 0);
     void *L = dlopen(getenv("CAT_LIB"), RTLD_NOW | RTLD_GLOBAL);
@@ -172,17 +200,28 @@ int main(int argc, char **argv) {
     for (int i = 0; i < NF; i++) { char sym[64]; snprintf(sym, sizeof sym, "_%s_chk", fns[i].name); fns[i].addr = dlsym(L, sym); if (!fns[i].addr) { fprintf(stderr, "missing %s\n", sym); return 2; } }
     void *(*ss)(void *) = dlsym(L, "set_str_constraint_handler_s"), *(*sm)(void *) = dlsym(L, "set_mem_constraint_handler_s");
     ss((void *)handler); sm((void *)handler);
+    mv_area = mmap(NULL, 4096, PROT_READ | PROT_WRITE, MAP_PRIVATE | MAP_ANONYMOUS, -1, 0);
     page = mmap(NULL, 4 * PG, PROT_NONE, MAP_PRIVATE | MAP_ANONYMOUS, -1, 0); mprotect(page + PG, 2 * PG, PROT_READ | PROT_WRITE);
     static char alt[1 << 15]; stack_t sst = { .ss_sp = alt, .ss_size = sizeof alt }; sigaltstack(&sst, NULL);
     struct sigaction sa; memset(&sa, 0, sizeof sa); sa.sa_sigaction = on_segv; sa.sa_flags = SA_SIGINFO | SA_ONSTACK | SA_NODEFER; sigaction(SIGSEGV, &sa, NULL);
-    if (argc >= 9 && !strcmp(argv[1], "replay")) {
+    if (argc >= 7 && !strcmp(argv[1], "replay")) {
         verbose = 1; const Fn *f = NULL; for (int i = 0; i < NF; i++) if (!strcmp(fns[i].name, argv[2])) f = &fns[i];
         if (!f) return 2;
-        one(f, atoi(argv[3]), strtoul(argv[4], 0, 10), atoi(argv[5]), atoi(argv[6]), atoi(argv[7]), atoi(argv[8]));
+        if (!strcmp(argv[3], "move")) { long_move(f, atoi(argv[4]), atoi(argv[5]), atoi(argv[6])); }
+        else { bosmode = argc > 9 ? atoi(argv[9]) : 0; one(f, atoi(argv[3]), strtoul(argv[4], 0, 10), atoi(argv[5]), atoi(argv[6]), atoi(argv[7]), atoi(argv[8])); }
         if (nsig) { printf("VERDICT violation %s\n", sigs[0]); return 1; }
         printf("VERDICT ok\n"); return 0;
     }
     if (argc < 5) return 2;
+    if (!strcmp(argv[1], "moves")) {            /* moves <maxlen_bytes> <shard> <n> */
+        int LM = atoi(argv[2]); long shard = atol(argv[3]), nsh = atol(argv[4]); long idx = 0;
+        for (int fi = 0; fi < NF; fi++) { const Fn *f = &fns[fi]; if (f->fam != F_MOVE) continue; int w = f->w;
+            for (int align = 0; align < 8; align += (w == 1 ? 1 : w)) for (int sh = -136 / w; sh <= 136 / w; sh++) { if ((idx++ % nsh) != shard) continue;
+                for (int len = 0; len <= LM / w; len++) long_move(f, align, sh, len); } }
+        for (int i = 0; i < nsig; i++) printf("{\"t\":\"viol\",\"sig\":\"%s\",\"n\":%ld,\"case\":\"%s\"}\n", sigs[i], sigcnt[i], sigcase[i]);
+        printf("{\"t\":\"stat\",\"layouts\":%ld,\"zone_disjoint\":0,\"zone_must_report\":0,\"zone_either\":0,\"dest_unterminated\":0,\"violating\":%ld}\n", n_cases, n_viol);
+        return 0;
+    }
     int M = atoi(argv[2]); long shard = atol(argv[3]), nsh = atol(argv[4]);
     long idx = 0;
     for (int fi = 0; fi < NF; fi++) {
@@ -193,7 +232,7 @@ int main(int argc, char **argv) {
             if ((idx++ % nsh) != shard) continue;
             for (int d = 0; d < M; d++) for (int dmax = 1; d + dmax <= M; dmax++) for (int s = 0; s < M; s++)
                 for (int slen = uses_len ? 1 : 0; slen <= (uses_len ? M : 0); slen++)
-                    one(f, M, bits, d, dmax, s, slen);
+                    for (bosmode = 0; bosmode < 2; bosmode++) one(f, M, bits, d, dmax, s, slen);
         }
     }
     for (int i = 0; i < nsig; i++) printf("{\"t\":\"viol\",\"sig\":\"%s\",\"n\":%ld,\"case\":\"%s\"}\n", sigs[i], sigcnt[i], sigcase[i]);
